@@ -143,10 +143,11 @@ OverloadListT(ts, ctx) == [i \in 1..Len(ts) |-> OverloadT(ts[i], ctx)]
 OverloadT(t, ctx) ==
   CASE t.k \in {"nil", "bool", "int", "float", "str", "id", "ptr", "none", "const"} -> t
     [] t.k = "un"   -> NUn(t.op, OverloadT(t.x, ctx))
-    [] t.k = "bin"  -> IF t.op = "+"
-                       THEN NCall((IF TypeOf(t.l, ctx) = "int" /\ TypeOf(t.r, ctx) = "int" THEN "Add" ELSE "AddAny"),
-                                  <<OverloadT(t.l, ctx), OverloadT(t.r, ctx)>>)
-                       ELSE NBin(t.op, OverloadT(t.l, ctx), OverloadT(t.r, ctx))
+    [] t.k = "bin"  -> \* operand types are those of the rewritten operands: an overloaded operand has its function's result type
+                       LET l2 == OverloadT(t.l, ctx)  r2 == OverloadT(t.r, ctx)
+                       IN IF t.op = "+"
+                          THEN NCall((IF TypeOf(l2, ctx) = "int" /\ TypeOf(r2, ctx) = "int" THEN "Add" ELSE "AddAny"), <<l2, r2>>)
+                          ELSE NBin(t.op, l2, r2)
     [] t.k = "prop" -> NProp(OverloadT(t.x, ctx), t.name, t.ns)
     [] t.k = "idx"  -> NIdx(OverloadT(t.x, ctx), OverloadT(t.i, ctx))
     [] t.k = "slice" -> NSlice(OverloadT(t.x, ctx), OverloadT(t.from, ctx), OverloadT(t.to, ctx))
